@@ -1,5 +1,6 @@
 import YatimlModel.Props.C07Parse
 import YatimlModel.Spec.JsonProjection
+import YatimlModel.Lemmas.IntNumber
 /-!
 # C07 end to end — the text `dumps_json` writes for a value parses to the value's JSON projection
 
@@ -31,13 +32,12 @@ def NoSweeten (env : DumpEnv) : Prop :=
 /-- `str.lower` on the two texts `represent_bool` writes -/
 def LowerOk (f : TextFns) : Prop := f.lower "true" = "true" ∧ f.lower "false" = "false"
 
-/-- every number in the value is written as a number text (`str(int)`, `repr(float)` of a finite
-float: `C07_number_texts_wf`) -/
+/-- every float in the value is written as a number text (`repr(float)` of a finite float is one:
+`C07_number_texts_wf`); for integers this is a theorem (`int_numText`), not a hypothesis -/
 def NumsOk : Nat → PyVal → Prop
   | 0, _ => True
   | fuel + 1, v =>
     match v with
-    | .scalar (.int i) => NumText (codes (toString i))
     | .scalar (.float r _) => NumText (codes (floatText r))
     | .list xs => ∀ x ∈ xs.toList, NumsOk fuel x
     | .dict kvs => ∀ e ∈ kvs.toList, NumsOk fuel e.2
@@ -277,9 +277,8 @@ theorem proj_all (hns : NoSweeten env) (hl : LowerOk f) : ∀ fuel, Proj env f f
         cases b <;> simp [representScalar, ofNode, skOfTag_bool, toJV, scalarJV, WfT, WfScalar, hl.1, hl.2]
       | int i =>
         simp only [jsonOf] at hj; cases hj
-        simp only [NumsOk] at hn
         exact ⟨by simp [representScalar, ofNode, skOfTag_int, toJV, scalarJV],
-               by simpa [representScalar, ofNode, skOfTag_int, WfT, WfScalar] using hn⟩
+               by simpa [representScalar, ofNode, skOfTag_int, WfT, WfScalar] using int_numText i⟩
       | float r a =>
         simp only [jsonOf] at hj; cases hj
         simp only [NumsOk] at hn
@@ -401,12 +400,14 @@ example : NoSweeten envE := by
 
 example : (represent envE 4 valE).toOption.isSome = true := by decide +kernel
 example : (jsonOf 4 valE).isSome = true := by decide +kernel
-example : NumText (codes (toString (-3 : Int))) := by
-  refine ⟨by decide, ?_, by decide +kernel⟩
-  intro c hc
-  have : codes (toString (-3 : Int)) = [45, 51] := by decide
-  rw [this] at hc
-  simp at hc
-  rcases hc with rfl | rfl <;> decide
+example : NumText (codes (toString (-3 : Int))) := int_numText (-3)
 
+end YatimlModel.C07
+
+namespace YatimlModel.C07
+/-- `str(i)` of **every** integer is a JSON number text (no hypothesis, no bound): what `represent_int`
+writes and `emit_json` copies verbatim is an RFC 8259 number -/
+theorem C07_int_texts_are_numbers (i : Int) (f : YatimlModel.Json.TextFns) :
+    YatimlModel.JsonParse.WfScalar f .other (toString i) :=
+  YatimlModel.JsonParse.int_numText i
 end YatimlModel.C07
